@@ -76,6 +76,33 @@ func C08(o *world.Obs) *Result {
 				s, sh.DeadBy[s], SummarizeExchange(o, ex))
 		}
 	}
+	// a 304 is only ever merged into the reply whose validators the conditional request named
+	for _, ex := range o.Exchanges {
+		if ex.Resp == nil || !IsPlainGET(ex.Req) {
+			continue
+		}
+		tok := world.TokOf(ex.Resp.Header)
+		val, err := strconv.Atoi(ex.Resp.Header.Get("X-Val"))
+		if tok < 0 || err != nil {
+			continue
+		}
+		src, c304 := o.CallBySerial(tok), o.CallBySerial(val)
+		if src == nil || c304 == nil || c304.Status != 304 || HasClientConditional(o.Exchanges[max(c304.Ex, 0)].Req) {
+			continue
+		}
+		r.NonTrivial = true
+		// validators the reply had before that 304 (any admissible version)
+		etags, lms := map[string]bool{}, map[string]bool{}
+		for _, v := range Versions(o, src, c304.StartSeq) {
+			etags[v.Header.Get("Etag")] = true
+			lms[v.Header.Get("Last-Modified")] = true
+		}
+		inm, ims := c304.Header.Get("If-None-Match"), c304.Header.Get("If-Modified-Since")
+		if (inm != "" && !etags[inm]) || (inm == "" && ims != "" && !lms[ims]) {
+			r.Fail("C08", "304-applied-to-another-reply", ex.Idx, "the 304 s%d answered a request with If-None-Match=%q If-Modified-Since=%q, validators reply s%d never had, yet its fields were merged into s%d; %s",
+				val, inm, ims, tok, tok, SummarizeExchange(o, ex))
+		}
+	}
 	for _, ob := range sh.Obligations {
 		if ob.Kind == "fresh-hit" && !otherVariantValidated(sh, ob) {
 			continue // plain C09 territory
